@@ -342,7 +342,17 @@ def _machine_config(cfg):
         if L["profile"]:
             d["color_correction_profile"] = L["profile"]
         if L["backend"] == "coil":
-            coils["c_" + L["name"]] = {"number": str(10 + len(coils)), "allow_enable": True}
+            # coil variants (a configuration, not a behaviour): the default hold power of the coil is below 1 while
+            # full power stays allowed -- the light's brightness, not the coil's default, must reach the hardware
+            cc = {"number": str(10 + len(coils))}
+            variant = (len(L["name"]) + len(coils) + int(L["fade_ms"] or 0) + len(cfg["lights"])) % 3
+            if variant == 0:
+                cc["allow_enable"] = True
+            elif variant == 1:
+                cc.update({"allow_enable": True, "default_hold_power": 0.5})
+            else:
+                cc.update({"max_hold_power": 1.0, "default_hold_power": 0.25})
+            coils["c_" + L["name"]] = cc
             d["number"] = "c_" + L["name"]
             d["platform"] = "drivers"
         else:
